@@ -22,3 +22,6 @@ open RV.C11
 #print axioms path_n3_roundtrip_partial
 #print axioms path_n3_roundtrip_witness
 #print axioms n3_query_same_partial
+#print axioms api_dispatch
+#print axioms api_unique_nodup
+#print axioms api_dispatch_correct_partial
